@@ -7,6 +7,7 @@ GROUPS = [H(n) for n in ['read', 'readv', 'recv', 'recvfrom', 'recvmsg', 'write'
     dict(name='socket', tu='io.c', harness='h_socket', mode='H', loop_contracts=True, functions=['socket', 'setup_socket'], unwind=9, timeout=300),
     dict(name='socketpair', tu='io.c', harness='h_socketpair', mode='H', loop_contracts=True, functions=['socketpair', 'setup_socket'], unwind=9, timeout=300),
     dict(name='pipe', tu='io.c', harness='h_pipe', mode='H', loop_contracts=True, functions=['pipe'], unwind=9, timeout=300),
+    dict(name='io_init', tu='io.c', harness='h_io_init', mode='H', loop_contracts=True, functions=['fiber_io_init'], unwind=9, timeout=300),
     H('fcntl_setfl_nonblock', 'fcntl'), H('fcntl_other', 'fcntl'), H('ioctl_fionbio', 'ioctl'),
     dict(name='ev_wait_for_event', tu='event.c', harness='h_wait_for_event', mode='H', functions=['fiber_wait_for_event'], timeout=300),
     dict(name='ev_poll_fd_event', tu='event.c', harness='h_poll_fd_event', mode='H', functions=['fiber_poll_events_internal', 'fiber_event_wake_waiters'], unwind=4, bounded=True,
